@@ -8,15 +8,20 @@ PROP = "C09"
 GEN = ["Handlers", "Wrappers"]
 VO = ["Properties/C09.vo", "Extract/D_Client.vo"]
 MODULE = "Properties.C09"
-THEOREMS = ["c09_used_zero", "c09_failed_discarded", "c09_checkout", "c09_never_exhausted", "c09_release"]
+THEOREMS = ["c09_used_zero", "c09_failed_discarded", "c09_checkout", "c09_never_exhausted", "c09_release", "c09_reuse", "c09_failed_retired",
+            "c09_never_again"]
 DRIVER = "D_Client"
 TECHNIQUE = ("Coq proof about a hand-written Gallina model of ObjectPool (sequential) and the PooledClient wrappers over the "
-             "Client model: pool invariant after every call, failed clients discarded, capacity never exhausted; model tied to "
+             "Client model: pool invariant after every call, failed clients discarded and never handed out again along any history, "
+             "reuse before reopening, idle expiry closes, capacity never exhausted; model tied to "
              "the code by a differential run over operation sequences x faults x idle gaps x pool sizes")
 LEVEL_TEXT = ("c09_used_zero: for every operation, fault script, peer, clock and pool size, after a PooledClient call returns or "
               "raises a caught exception nothing is checked out and no client is listed twice; c09_failed_discarded: the client "
-              "whose call escaped is closed and in neither list; c09_checkout/never_exhausted/release. Partial: reuse of a "
-              "healthy connection and idle expiry are established by the correspondence run and the search, not by a theorem.")
+              "whose call escaped is closed and in neither list; c09_checkout/never_exhausted/release. c09_reuse: for every pool state and clock, checkout "
+              "hands out the first idle connection still inside pool_idle_timeout with its socket untouched (neither closed nor "
+              "reopened), the idle connections before it had expired and are closed and dropped, and a new connection is made only "
+              "when every idle one had expired; c09_failed_retired + c09_never_again: a connection that failed (or expired, quit, "
+              "cleared) is closed, is never returned by checkout again and stays out along every history of PooledClient calls.")
 LEVEL_NOTE = ("Trusted: Coq kernel; the hand model's correspondence with pool.py and PooledClient (differential run incl. socket "
               "identity per command and pool.used/free after each call); sequential use only (interleavings are C08). No axioms.")
 TRUSTED = ["Coq 8.16.1 kernel; no axioms",
